@@ -3,7 +3,7 @@ package main
 // plans maps a property to the scenarios its check runs (DESIGN.md §6).
 var plans = map[string][]planItem{
 	"C01": {{Scenario: "c01", Quick: 4000, Thorough: 400000}},
-	"C09": {{Scenario: "c01", Quick: 1500, Thorough: 100000}},
+	"C09": {{Scenario: "c09", Quick: 2000, Thorough: 100000}, {Scenario: "c09", Race: true, Quick: 240, Thorough: 20000}},
 	"C02": {{Scenario: "c02", Quick: 1500, Thorough: 100000}},
 	"C03": {{Scenario: "c03", Quick: 4000, Thorough: 400000}},
 	"C12": {{Scenario: "c12", Quick: 3000, Thorough: 200000}},
@@ -50,7 +50,12 @@ func comp(extraReal, extraStub []string) map[string]any {
 }
 
 var propMeta = map[string]meta{
-	"C09": {Level: "exploration", Rule: "tbd", Components: comp(nil, nil), Assumptions: commonAssumptions},
+	"C09": {
+		Level:       "exploration",
+		Rule:        "one run = 2-6 concurrent tunnels (websocket and legacy) doing setup, data in both directions (host keeps streaming 2-9 writes), then per tunnel one of: nothing, CLOSE_CHANNEL while the host is still sending, an out-of-phase packet while the host is still sending, abrupt client disconnect (EOF or reset), keep-alives between data packets; 2-5 stalls hold gateway writes mid-message (slow client / slow host) or delay deliveries; interleaving chosen by the tape. Two batches: a plain build (2000 runs) and a race-detector build (240 runs, one run per process, simulator shims invisible to the detector: //go:norace + RaceDisable, discarding logger so that the log mutex does not order goroutines). Violations: a race report in which both accesses have a frame of the repository; a fatal error or unrecovered panic (process death, e.g. concurrent map writes, gorilla's concurrent-write panic); a torn or interleaved websocket frame / packet seen by a client-side deframer, a malformed or foreign DATA payload; non-trivial = >=2 tunnels received host data; distinct = journal shape",
+		Components:  comp(nil, nil),
+		Assumptions: append([]string{"the race detector only reports races that occur in the explored executions; the simulator widens the windows (a write held for many scheduler steps) but does not enumerate them", "RWMutex is simulated as an exclusive lock"}, commonAssumptions...),
+	},
 	"C06": {
 		Level:       "exploration",
 		Rule:        "one run = one open tunnel (websocket or legacy) relaying a client stream (1-12 DATA packets, thorough tier up to 60; payload sizes biased to 0, 1, 4085-4087, 4095-4097, 8182-8193, 16383/16384, 32768, 65534/65535 and uniform; 1 in 6 packets declares fewer or more bytes than it carries) and a host stream (1-12 writes up to 20000 bytes) under a tape-chosen interleaving of both directions, 0-3 stalls (gateway write held = slow client/slow host, delivery to the gateway held, peer reading slowly) and optional TCP re-segmentation of the client's writes; oracle at the end of a fault-free drain: host bytes == concatenation of declared payloads (min(declared,carried)); client DATA payloads == host stream; every DATA packet structurally well-formed; a packet declaring more than it carries may be forwarded as carried, dropped, or end the tunnel; non-trivial = bytes flowed both ways and >=1 stall fired; distinct = journal shape",
